@@ -264,6 +264,22 @@ Example C06_notifies_only_changes_example :
   filter (fun e => match e with EvFn _ => true | _ => false end) (w_trace (run fn true 8 (ops ++ [BevEvalAll 0]))) = [EvFn 2; EvFn 9; EvFn 2; EvFn 9].
 Proof. split; [vm_compute; repeat split; reflexivity|]. split; [vm_compute; reflexivity|]. split; vm_compute; reflexivity. Qed.
 
+(* ... and a value that DID change is announced: every about-to-change observer of the property once with (current, new) while get()
+   still returns the current value, then every changed observer once with the new value while get() already returns it, in
+   connection order, and nobody else (the bindings that read the property are only marked: nothing is recorded for them) *)
+Theorem C06_changed_value_is_announced_once :
+  forall fn rtl ev f w b x q pr t v lg w',
+    PropSimLazy.LSC ev w -> get_bind w b = Some x -> b_target x = Some q -> lookup (w_props w) q = Some pr ->
+    eval fn rtl (values w) (b_root x) = (t, inl v, lg) -> v <> pr_value pr ->
+    binding_evaluate fn rtl (set_helper fn rtl (S f)) w b = (w', None) ->
+    PropNotify.notes w' =
+      rev (map (fun label => EvNotify label KChanged [v] (Some v)) (PropProofs.all_labels w (pr_changed pr)))
+      ++ rev (map (fun label => EvNotify label KAbout [pr_value pr; v] (Some (pr_value pr))) (PropProofs.all_labels w (pr_about pr)))
+      ++ PropNotify.notes w /\
+    values w' q = Some v.
+Proof. exact PropNotify.lazy_evaluate_announces_change. Qed.
+Print Assumptions C06_changed_value_is_announced_once.
+
 (* a second evaluateAll right after the first leaves the WHOLE world as it is - values, trees, connection tables, the record of observer
    calls and of user-function calls (every registered binding updates a property; duplicate-free dependency order) *)
 Theorem C06_second_evaluate_all_changes_nothing :
